@@ -284,7 +284,7 @@ func (P *Program) runPath(wk *Worker, j *Job, opts *Options) {
 			h.Violations[k] = v
 		}
 	}
-	if terminal == "return" && len(p.viols) == 0 {
+	if terminal == "return" && len(p.viols) == 0 && len(p.obs) > 0 {
 		h.sampleSeen++
 		if len(h.Samples) < opts.MaxSamples && (h.sampleSeen-1)%opts.SampleEvery == 0 {
 			h.Samples = append(h.Samples, p.sample())
